@@ -21,9 +21,10 @@ MODES = {
 
 # refinement theorems per mode: filled from the builders' reports; (modules, theorem names)
 THEOREMS = {
-    "gp-memb": (["UrcuVerif.Props.SrcRead"], ["UrcuVerif.Props.SrcRead._urcu_memb_read_lock_refines", "UrcuVerif.Props.SrcRead._urcu_memb_read_unlock_refines", "UrcuVerif.Props.SrcRead._urcu_memb_read_ongoing_refines", "UrcuVerif.Props.SrcRead._urcu_memb_read_lock_in_handler_refines", "UrcuVerif.Props.SrcRead._urcu_memb_read_unlock_in_handler_refines", "UrcuVerif.Props.SrcRead.urcu_common_wake_up_gp_shape", "UrcuVerif.Props.SrcRead.flip_proj_step", "UrcuVerif.Props.SrcRead.flip_proj_enabled", "UrcuVerif.Props.SrcRead.flip_proj_frame", "UrcuVerif.Props.SrcRead.handshake_proj_step", "UrcuVerif.Props.SrcRead.handshake_proj_enabled", "UrcuVerif.Props.SrcRead.handshake_proj_frame"]),
-    "gp-mb": (["UrcuVerif.Props.SrcRead"], ["UrcuVerif.Props.SrcRead._urcu_mb_read_lock_refines", "UrcuVerif.Props.SrcRead._urcu_mb_read_unlock_refines", "UrcuVerif.Props.SrcRead._urcu_mb_read_ongoing_refines", "UrcuVerif.Props.SrcRead._urcu_mb_read_lock_in_handler_refines", "UrcuVerif.Props.SrcRead._urcu_mb_read_unlock_in_handler_refines", "UrcuVerif.Props.SrcRead.urcu_common_wake_up_gp_shape", "UrcuVerif.Props.SrcRead.flip_proj_step", "UrcuVerif.Props.SrcRead.flip_proj_enabled", "UrcuVerif.Props.SrcRead.flip_proj_frame", "UrcuVerif.Props.SrcRead.handshake_proj_step", "UrcuVerif.Props.SrcRead.handshake_proj_enabled", "UrcuVerif.Props.SrcRead.handshake_proj_frame"]),
+    "gp-memb": (["UrcuVerif.Props.SrcRead", "UrcuVerif.Props.SrcSync"], ["UrcuVerif.Props.SrcSync.urcu_common_reader_state_refines", "UrcuVerif.Props.SrcSync.memb_smp_mb_master_refines", "UrcuVerif.Props.SrcSync.memb_wait_gp_refines", "UrcuVerif.Props.SrcSync.memb_wait_for_readers_refines", "UrcuVerif.Props.SrcSync.memb_synchronize_rcu_refines", "UrcuVerif.Props.SrcSync.memb_grace_period_refines", "UrcuVerif.Props.SrcSync.first_disc", "UrcuVerif.Props.SrcSync.succOf_mem", "UrcuVerif.Props.SrcSync.succOf_disc", "UrcuVerif.Props.SrcSync.proj_enabled", "UrcuVerif.Props.SrcSync.proj_step", "UrcuVerif.Props.SrcSync.proj_frame", "UrcuVerif.Props.SrcRead._urcu_memb_read_lock_refines", "UrcuVerif.Props.SrcRead._urcu_memb_read_unlock_refines", "UrcuVerif.Props.SrcRead._urcu_memb_read_ongoing_refines", "UrcuVerif.Props.SrcRead._urcu_memb_read_lock_in_handler_refines", "UrcuVerif.Props.SrcRead._urcu_memb_read_unlock_in_handler_refines", "UrcuVerif.Props.SrcRead.urcu_common_wake_up_gp_shape", "UrcuVerif.Props.SrcRead.flip_proj_step", "UrcuVerif.Props.SrcRead.flip_proj_enabled", "UrcuVerif.Props.SrcRead.flip_proj_frame", "UrcuVerif.Props.SrcRead.handshake_proj_step", "UrcuVerif.Props.SrcRead.handshake_proj_enabled", "UrcuVerif.Props.SrcRead.handshake_proj_frame"]),
+    "gp-mb": (["UrcuVerif.Props.SrcRead", "UrcuVerif.Props.SrcSync"], ["UrcuVerif.Props.SrcSync.urcu_common_reader_state_refines", "UrcuVerif.Props.SrcSync.mb_smp_mb_master_refines", "UrcuVerif.Props.SrcSync.mb_wait_gp_refines", "UrcuVerif.Props.SrcSync.mb_wait_for_readers_refines", "UrcuVerif.Props.SrcSync.mb_synchronize_rcu_refines", "UrcuVerif.Props.SrcSync.first_disc", "UrcuVerif.Props.SrcSync.succOf_mem", "UrcuVerif.Props.SrcSync.succOf_disc", "UrcuVerif.Props.SrcSync.proj_enabled", "UrcuVerif.Props.SrcSync.proj_step", "UrcuVerif.Props.SrcSync.proj_frame", "UrcuVerif.Props.SrcRead._urcu_mb_read_lock_refines", "UrcuVerif.Props.SrcRead._urcu_mb_read_unlock_refines", "UrcuVerif.Props.SrcRead._urcu_mb_read_ongoing_refines", "UrcuVerif.Props.SrcRead._urcu_mb_read_lock_in_handler_refines", "UrcuVerif.Props.SrcRead._urcu_mb_read_unlock_in_handler_refines", "UrcuVerif.Props.SrcRead.urcu_common_wake_up_gp_shape", "UrcuVerif.Props.SrcRead.flip_proj_step", "UrcuVerif.Props.SrcRead.flip_proj_enabled", "UrcuVerif.Props.SrcRead.flip_proj_frame", "UrcuVerif.Props.SrcRead.handshake_proj_step", "UrcuVerif.Props.SrcRead.handshake_proj_enabled", "UrcuVerif.Props.SrcRead.handshake_proj_frame"]),
     "gp-bp": (["UrcuVerif.Props.SrcRead"], ["UrcuVerif.Props.SrcRead._urcu_bp_read_lock_refines", "UrcuVerif.Props.SrcRead._urcu_bp_read_unlock_refines", "UrcuVerif.Props.SrcRead._urcu_bp_read_ongoing_refines", "UrcuVerif.Props.SrcRead._urcu_bp_read_lock_unregistered", "UrcuVerif.Props.SrcRead._urcu_bp_read_lock_in_handler_refines", "UrcuVerif.Props.SrcRead._urcu_bp_read_unlock_in_handler_refines", "UrcuVerif.Props.SrcRead.urcu_common_wake_up_gp_shape", "UrcuVerif.Props.SrcRead.flip_proj_step", "UrcuVerif.Props.SrcRead.flip_proj_enabled", "UrcuVerif.Props.SrcRead.flip_proj_frame", "UrcuVerif.Props.SrcRead.handshake_proj_step", "UrcuVerif.Props.SrcRead.handshake_proj_enabled", "UrcuVerif.Props.SrcRead.handshake_proj_frame"]),
+    "defer": (["UrcuVerif.Props.SrcDefer"], ["UrcuVerif.Props.SrcDefer._defer_rcu_refines", "UrcuVerif.Props.SrcDefer._defer_rcu_stores", "UrcuVerif.Props.SrcDefer._defer_rcu_blocked", "UrcuVerif.Props.SrcDefer.wake_up_defer_refines", "UrcuVerif.Props.SrcDefer.rcu_defer_barrier_queue_refines", "UrcuVerif.Props.SrcDefer.rcu_defer_barrier_queue_events", "UrcuVerif.Props.SrcDefer.defer_roundtrip_inv", "UrcuVerif.Props.SrcDefer.defer_roundtrip_encode", "UrcuVerif.Props.SrcDefer.defer_roundtrip_one", "UrcuVerif.Props.SrcDefer._defer_rcu_refines_local", "UrcuVerif.Props.SrcDefer.rcu_defer_barrier_queue_refines_local", "UrcuVerif.Props.SrcDefer.enc_ex", "UrcuVerif.Props.SrcDefer.owner_proj", "UrcuVerif.Props.SrcDefer.owner_enabled_iff", "UrcuVerif.Props.SrcDefer.owner_frame", "UrcuVerif.Props.SrcDefer.owner_frame_unlock", "UrcuVerif.Props.SrcDefer.runner_proj", "UrcuVerif.Props.SrcDefer.runner_enabled_iff", "UrcuVerif.Props.SrcDefer.runner_frame"]),
     "wfs": (["UrcuVerif.Props.SrcStack"], ["UrcuVerif.Props.SrcStack.wfs_proj_step", "UrcuVerif.Props.SrcStack.wfs_lift_step", "UrcuVerif.Props.SrcStack.wfs_enabled_iff", "UrcuVerif.Props.SrcStack.wfs_proj_run", "UrcuVerif.Props.SrcStack.wfs_frame", "UrcuVerif.Props.SrcStack.wfs_frame_own", "UrcuVerif.Props.SrcStack.wfs_frame_iterNext", "UrcuVerif.Props.SrcStack._cds_wfs_push_refines", "UrcuVerif.Props.SrcStack.___cds_wfs_node_sync_next_refines", "UrcuVerif.Props.SrcStack.___cds_wfs_pop_refines", "UrcuVerif.Props.SrcStack.___cds_wfs_pop_refines_total", "UrcuVerif.Props.SrcStack.___cds_wfs_pop_all_refines", "UrcuVerif.Props.SrcStack._cds_wfs_empty_refines"]),
     "lfs": (["UrcuVerif.Props.SrcStack"], ["UrcuVerif.Props.SrcStack.lfs_proj_step", "UrcuVerif.Props.SrcStack.lfs_lift_step", "UrcuVerif.Props.SrcStack.lfs_enabled_iff", "UrcuVerif.Props.SrcStack.lfs_proj_run", "UrcuVerif.Props.SrcStack.lfs_frame", "UrcuVerif.Props.SrcStack.lfs_frame_own", "UrcuVerif.Props.SrcStack.lfs_frame_iterNext", "UrcuVerif.Props.SrcStack._cds_lfs_push_refines", "UrcuVerif.Props.SrcStack.___cds_lfs_pop_refines", "UrcuVerif.Props.SrcStack.___cds_lfs_pop_all_refines", "UrcuVerif.Props.SrcStack._cds_lfs_empty_refines"]),
     "wfcq": (["UrcuVerif.Props.SrcQueue"], ["UrcuVerif.Props.SrcQueue.wfcq_proj", "UrcuVerif.Props.SrcQueue.wfcq_enabled_iff", "UrcuVerif.Props.SrcQueue.wfcq_frame", "UrcuVerif.Props.SrcQueue.wfcq_frame_env", "UrcuVerif.Props.SrcQueue._cds_wfcq_enqueue_refines", "UrcuVerif.Props.SrcQueue.___cds_wfcq_append_refines", "UrcuVerif.Props.SrcQueue._cds_wfcq_empty_refines", "UrcuVerif.Props.SrcQueue.___cds_wfcq_node_sync_next_refines", "UrcuVerif.Props.SrcQueue.___cds_wfcq_busy_wait_silent", "UrcuVerif.Props.SrcQueue._cds_wfcq_node_init_atomic_refines", "UrcuVerif.Props.SrcQueue.urcu_ref_get_safe_refines", "UrcuVerif.Props.SrcQueue.urcu_ref_get_safe_never_stores_at_LONG_MAX", "UrcuVerif.Props.SrcQueue.urcu_ref_get_safe_at_LONG_MAX", "UrcuVerif.Props.SrcQueue.urcu_ref_get_unless_zero_refines", "UrcuVerif.Props.SrcQueue.urcu_ref_get_unless_zero_never_stores_at_zero_or_LONG_MAX", "UrcuVerif.Props.SrcQueue.urcu_ref_put_refines"]),
